@@ -134,7 +134,17 @@ class Dual(Lifted):
             return 1 / (s ** (-k))
         if k == 0.5:
             return s.sqrt()
-        raise NotImplementedError("Dual ** %r" % (k,))
+        from fractions import Fraction
+        fk = Fraction(k).limit_denominator(1000)
+        if abs(float(fk) - float(k)) > 1e-15:
+            raise NotImplementedError("Dual ** %r" % (k,))
+        if bool(s.p == 0):
+            raise NotDifferentiable("fractional power at 0")
+        y = s.p.root_pow(fk.numerator, fk.denominator)
+        r = _t(fk)
+        y1 = r * y / s.p * s.t
+        y2 = None if s.s is None else (r * y / s.p * s.s + r * (r - 1) / 2 * y / (s.p * s.p) * s.t * s.t)
+        return Dual(y, y1, y2)
 
     # lexicographic order
     def _lt(s, o):
